@@ -550,6 +550,26 @@ def _main(ck, bdir, cat, rng, scratch, fast, tier):
     for key in sel:
         m = key[0] + chr_of(key[1]) + chr_of(key[2])
         probes.append(("unlisted", key, key[0], pre0 + [{"th": 1, "m": m, "payload": ""}] + tail, 1, key in acc, None))
+    # unlisted codes once more after the thread has ended (OHe): the base model still
+    # processes listed events there (the flush of a thread that has ended, OF[ OF]), so
+    # "every unlisted code is rejected" is a separate obligation in that context.  All
+    # unlisted codes of the base model within the selection, and the neighbours of the
+    # other models (for them an event of a dead thread is refused anyway).
+    ohe_ev = {"th": 1, "m": "OHe", "payload": ""}
+    ndead = 0
+    for key in sel:
+        if key[0] != "O" and tier == "quick" and ndead % 7:
+            ndead += 1
+            continue
+        ndead += 1
+        m = key[0] + chr_of(key[1]) + chr_of(key[2])
+        probes.append(("unlisted+ended", key, key[0], pre0 + [ohe_ev, {"th": 1, "m": m, "payload": ""}], 2, key in acc, None))
+    # the listed flush events are processed in that context (non-vacuity of the family)
+    for v in "[]":
+        k = ("O", idx("F"), idx(v))
+        if k in listed:
+            hist = pre0 + [ohe_ev, {"th": 1, "m": "OF[", "payload": ""}] + ([{"th": 1, "m": "OF]", "payload": ""}] if v == "]" else [])
+            probes.append(("listed+ended", k, "O", hist, len(hist) - 1, True, None))
     # unlisted codes with the payload (and in the witness context) of each listed
     # event of the same category that carries arguments
     nshape = 0
@@ -597,7 +617,7 @@ def _main(ck, bdir, cat, rng, scratch, fast, tier):
                          % (code, cat[mc]["name"], names, "processed" if expect else "the event refused (the model refuses "
                             "events of a thread that is out of the CPU)", o["verdict"], o["refused_at"], o["errors"]),
                          bundle, sig="listed-switched-out:" + code[:2])
-        elif expect and kind == "listed":
+        elif expect and kind in ("listed", "listed+ended"):
             ck.violation("listed event %s (model %s) is not processed in its witness context %s: ovniemu refused event #%s %s"
                          % (code, cat[mc]["name"], names, o["refused_at"], o["errors"]), bundle, sig="listed-refused:" + code)
         elif expect:
